@@ -381,6 +381,9 @@ class Scenario:
                 # or takeover would hide are observable (calm-point completeness)
                 self.settle()
                 continue
+            if kind == "retained" and r.chance(1, 30) and self.live():
+                self._late_retained()
+                continue
             live = self.live()
             x = r.below(total)
             act = 0
@@ -439,6 +442,37 @@ class Scenario:
         if not self.dead:
             self.settled = self.settle()
         return self
+
+    def _late_retained(self):
+        """a subscription that finds NO retained message at its first sweep, then — with the router
+        idle and the subscriber drained in between — the first retained publish on a matching topic:
+        it must arrive live (unflagged), once"""
+        r = self.rng
+        live = self.live()
+        sub = r.choice(live)
+        self.late_n = getattr(self, "late_n", 0) + 1
+        pkid = sub.next_pkid
+        sub.next_pkid = sub.next_pkid % 65535 + 1
+        flt = r.choice(["r/+", "r/#", "r/%d" % self.late_n])
+        sub.subs_seen.add(flt)
+        self.push(sub, "SUB %d - %s:%d" % (pkid, hx(flt), r.choice([0, 0, 1])), ("sub", pkid, "-", [(flt, 0)]))
+        self.data(sub)
+        self.settle()
+        live = self.live()
+        if not live:
+            return
+        pub = r.choice(live)
+        self.seq += 1
+        topic = ("r/%d" % self.late_n).encode()
+        payload = ("m%d" % self.seq).encode()
+        qos = r.below(2)
+        pk = 0
+        if qos:
+            pk = pub.next_pkid
+            pub.next_pkid = pub.next_pkid % 65535 + 1
+        self.push(pub, "PUB %s %s %d %d 1 0 -" % (hx(topic), hx(payload), qos, pk), ("pub", topic, payload, qos, pk, 1, "-", self.seq))
+        self.data(pub)
+        self.settle()
 
     def _init_client(self, cl):
         cl.alias_sent = set()
